@@ -560,6 +560,9 @@ let gen_ops ?(wits : string = "") (body : string) (sign_ok : bool) : string list
   let cur = ref body in
   let k = (match below 10 with 0 | 1 -> 0 | 2 | 3 | 4 -> 1 | 5 | 6 -> 2 | 7 -> 3 | 8 -> 4 | _ -> 6) in
   let last_av = ref None in
+  (* re-adding a witness of the INPUT set as the first operation: the set does not change but the library drops the
+     field's original bytes and re-encodes it (visible when the input field is not canonical) *)
+  (if existing <> [] && chance 25 then [List.nth existing (below (List.length existing))] else []) @
   List.concat (List.init k (fun _ ->
       match below (if sign_ok then 20 else 7) with
       | 0 | 1 -> let o = Printf.sprintf "av:%s:%s" (rand_hex 32) (rand_hex 64) in last_av := Some o; [o]
